@@ -1,0 +1,5 @@
+//go:build !verif
+
+package http1
+
+func verifYield(string) {}
